@@ -24,6 +24,7 @@ class Module:
 		self.__entrypoint = entrypoint
 		self.__sources = sources
 		self.__identity: str = ''
+		self.__depends: list[Module] | None = None
 
 	@override
 	def __repr__(self) -> str:
@@ -58,6 +59,14 @@ class Module:
 		"""
 		return self.__sources.exists(self.filepath)
 
+	def depends_on(self, modules: 'list[Module]') -> None:
+		"""インポートしたモジュールを登録。識別子に依存モジュールの識別子を反映するために使用
+
+		Args:
+			modules: インポートしたモジュールリスト(インポート順)
+		"""
+		self.__depends = modules
+
 	def identity(self) -> str:
 		"""モジュールの一意な識別子を生成
 
@@ -76,8 +85,13 @@ class Module:
 		if self.__identity:
 			return self.__identity
 
-		depends_files = [module_path_to_filepath(import_node.import_path.tokens, f'.{self.module_path.language}') for import_node in self.entrypoint.imports]
-		depends_files.append(self.filepath)
-		identities = [self.__sources.hash(filepath) for filepath in depends_files]
+		if self.__depends is not None:
+			# 依存モジュールの識別子を再帰的に含めることで、間接的にインポートしたモジュールの変更も反映
+			identities = [module.identity() for module in self.__depends]
+		else:
+			depends_files = [module_path_to_filepath(import_node.import_path.tokens, f'.{self.module_path.language}') for import_node in self.entrypoint.imports]
+			identities = [self.__sources.hash(filepath) for filepath in depends_files]
+
+		identities.append(self.__sources.hash(self.filepath))
 		self.__identity = hashlib.md5(str(identities).encode('utf-8')).hexdigest()
 		return self.__identity
